@@ -8,8 +8,21 @@ the observation function shared by both properties lives):
   reply           err | panic | ok GROUP | GROUP | ...   (one `name=value` per accessor group;
                   a group is `panic` when an accessor in it panicked, a list ends in
                   `+hang` when its iterator did not end within the bound)
+
+  enc CFG WD ATTRS ANN   an abstract content with TYPED attributes, encoded by the reference
+                  encoder `encUpdateT` the C01 theorems speak about (the harness answers with
+                  its own Rust reference encoder: the two are compared octet by octet)
+                  WD, ANN = `-` | ITEM{;ITEM}      ITEM = the `,`-joined tokens of C05 (`pid=N,` first
+                                                   when a path id is given)
+                  ATTRS   = `-` | ATTR{|ATTR}      FL = flags octet (decimal)
+                    t~FL~VALUE        typed value in C04's request text (`med:5`, `aspath:a1,a2`, ...)
+                    p~FL~CODE~SEGS    AS_PATH (2) / AS4_PATH (17) as wire segments `TY:ASN.ASN{,..}` | `-`
+                    r~FL~CODE~HEX     attribute of an unrecognised type
+                    m~FL~FAM~NH~ITEMS MP_REACH_NLRI     (FAM = Rust name of the family, NH hex)
+                    u~FL~FAM~ITEMS    MP_UNREACH_NLRI
+  reply           ok HEX | err | panic
 -/
-import Rc.Model.Update
+import Rc.Model.UpdateObs
 import Rc.Drv.C04
 import Rc.Drv.C05
 
@@ -136,48 +149,67 @@ def showAttrItem (four : Bool) (w : Wire) : String :=
 
 def fnhFams : List (Nat × Nat) := (Rc.Drv.C05.famNames.map fun x => famCode x.2) ++ [(99, 9)]
 
+def showOptIterO (x : Outcome (Option (NlriTy × Items))) : String :=
+  match x with
+  | .ok none => "none"
+  | .ok (some (ty, r)) =>
+    match showItems showAny r with
+    | some s => s!"{tyName ty}:{s}"
+    | none => "panic"
+  | .err => "err"
+  | .panic => "panic"
+
+/-- the reply is printed from the `Observation` record the C01 theorem
+`decode_encode` is about (`tw` / `ta` additionally show `typed_*::<T>` for all 26
+NLRI types `T`, `pcap` is C02's) -/
 def observe (m : Msg) : String :=
+  let o := observeMsg m
   let g (n v : String) := s!"{n}={v}"
   String.intercalate " | " [
-    g "len" s!"{m.length},{m.wdLen},{m.attrLen}",
+    g "len" s!"{o.length},{o.wdLen},{o.attrLen}",
     g "pcap" (match m.pcap with | .ok b => hexOrDash b | _ => "panic"),
-    g "attrs" (orPanic (showItems (showAttrItem m.ppi.four) m.pathAttributes)),
-    g "cw" (orPanic (showItems showAny m.convWd)),
-    g "ca" (orPanic (showItems showAny m.convAnn)),
-    g "mw" (showOptIter m.mpWd),
-    g "ma" (showOptIter m.mpAnn),
-    g "w" (showChain m.withdrawals),
-    g "a" (showChain m.announcements),
-    g "wv" (showVec m.wdVec),
-    g "av" (showVec m.annVec),
+    g "attrs" (orPanic (showItems (fun (x : Wire × Outcome Decoded) =>
+        s!"{x.1.flags}:{x.1.code}:{x.1.len}:{Rc.Drv.C04.showDecoded x.2}")
+      ((o.attrs.1.zip o.owned).map (fun x => match x.1 with
+        | .ok w => .ok (w, x.2)
+        | .err => .err
+        | .panic => .panic), o.attrs.2))),
+    g "cw" (orPanic (showItems showAny o.convWd)),
+    g "ca" (orPanic (showItems showAny o.convAnn)),
+    g "mw" (showOptIterO o.mpWd),
+    g "ma" (showOptIterO o.mpAnn),
+    g "w" (showChain o.withdrawals),
+    g "a" (showChain o.announcements),
+    g "wv" (showVec o.wdVec),
+    g "av" (showVec o.annVec),
     g "tw" (showTyped m.typedWd),
     g "ta" (showTyped m.typedAnn),
-    g "fams" (match m.afiSafis with
+    g "fams" (match o.afiSafis with
       | .ok (a, b, c, d) => s!"{showOptTy a},{showOptTy b},{showOptTy c},{showOptTy d}"
       | _ => "panic"),
-    g "eor" (showOO afiSafiName m.isEor),
-    g "origin" (showOO toString m.origin),
-    g "aspath" (showOO showPath m.aspath),
-    g "as4path" (showOO showPath m.as4path),
-    g "cnh" (showOO showNh m.convNextHop),
-    g "mnh" (showOO showNh m.mpNextHop),
+    g "eor" (showOO afiSafiName o.isEor),
+    g "origin" (showOO toString o.origin),
+    g "aspath" (showOO showPath o.aspath),
+    g "as4path" (showOO showPath o.as4path),
+    g "cnh" (showOO showNh o.convNextHop),
+    g "mnh" (showOO showNh o.mpNextHop),
     g "fnh" (
-      let rs := fnhFams.map fun k => (k, m.findNextHop k)
+      let rs := fnhFams.map fun k => (k, o.findNextHop k)
       if rs.any (fun x => match x.2 with | .panic => true | _ => false) then "panic"
       else
         let parts := rs.filterMap fun (k, r) => match r with
           | .ok nh => some s!"{afiSafiName k}:{showNh nh}"
           | _ => none
         if parts.isEmpty then "-" else String.intercalate "&" parts),
-    g "med" (showOO toString m.med),
-    g "lp" (showOO toString m.localPref),
-    g "atomic" (Rc.Drv.C13.bstr m.isAtomicAggregate),
-    g "aggr" (showOO (fun (x : Nat × Bytes) => s!"{x.1}:{hexOrDash x.2}") m.aggregator),
-    g "comm" (showComms m.communities),
-    g "ext" (showComms m.extCommunities),
-    g "v6ext" (showComms m.ipv6ExtCommunities),
-    g "large" (showComms m.largeCommunities),
-    g "all" (showOO (fun (l : List Bytes) => String.intercalate ";" (l.map hexOrDash)) m.allCommunities)]
+    g "med" (showOO toString o.med),
+    g "lp" (showOO toString o.localPref),
+    g "atomic" (Rc.Drv.C13.bstr o.isAtomicAggregate),
+    g "aggr" (showOO (fun (x : Nat × Bytes) => s!"{x.1}:{hexOrDash x.2}") o.aggregator),
+    g "comm" (showComms o.communities),
+    g "ext" (showComms o.extCommunities),
+    g "v6ext" (showComms o.ipv6ExtCommunities),
+    g "large" (showComms o.largeCommunities),
+    g "all" (showOO (fun (l : List Bytes) => String.intercalate ";" (l.map hexOrDash)) o.allCommunities)]
 
 def upd (c hx : String) : String :=
     match parseCfg c, bytesOfHex hx with
@@ -188,12 +220,83 @@ def upd (c hx : String) : String :=
       | .panic => "panic"
     | _, _ => "bad-op"
 
-/-- the two extra tokens of a C01 request (hash, expected observation) are
-for the harness' oracle only -/
+/-! ### the `enc` op: abstract typed content -> octets of the reference encoder -/
+
+def famOfName (s : String) : Option Fam := (Rc.Drv.C05.famNames.find? (·.1 == s)).map (·.2)
+
+/-- one NLRI item: `,`-joined C05 tokens, `pid=N` first when a path id is given -/
+def readItem (f : Fam) (s : String) : Option (Nat × f.Val) :=
+  let toks := s.splitOn ","
+  match toks with
+  | t :: rest =>
+    match Rc.Drv.C05.kvNat "pid" t with
+    | some p => if p < 4294967296 then ((Rc.Drv.C05.famIo f).read rest).map fun v => (p, v) else none
+    | none => ((Rc.Drv.C05.famIo f).read toks).map fun v => (0, v)
+  | [] => none
+
+def readItems (f : Fam) (s : String) : Option (List (Nat × f.Val)) :=
+  if s == "-" then some [] else (s.splitOn ";").mapM (readItem f)
+
+def readFlags (s : String) : Option UInt8 :=
+  match decNat s with
+  | some n => if n < 256 then some (UInt8.ofNat n) else none
+  | none => none
+
+def readSeg (s : String) : Option AsPath.Seg :=
+  match s.splitOn ":" with
+  | [t, as] =>
+    match decNat t, Rc.Drv.C13.parseAsns as with
+    | some ty, some l => if ty < 256 then some ⟨ty, true, l⟩ else none
+    | _, _ => none
+  | _ => none
+
+def readSegs (s : String) : Option (List AsPath.Seg) :=
+  if s == "-" then some [] else (s.splitOn ",").mapM readSeg
+
+def readAttr (s : String) : Option AttrC :=
+  match s.splitOn "~" with
+  | ["t", fl, v] =>
+    match readFlags fl, Rc.Drv.C04.parseValueText v with
+    | some fl, some a => some (.typed fl a)
+    | _, _ => none
+  | ["p", fl, code, segs] =>
+    match readFlags fl, readSegs segs with
+    | some fl, some ss =>
+      if code == "2" then some (.path fl false ss) else if code == "17" then some (.path fl true ss) else none
+    | _, _ => none
+  | ["r", fl, code, hx] =>
+    match readFlags fl, readFlags code, bytesOfHex hx with
+    | some fl, some tc, some v => some (.raw fl tc v)
+    | _, _, _ => none
+  | ["m", fl, fam, nh, items] =>
+    match readFlags fl, famOfName fam, bytesOfHex nh with
+    | some fl, some f, some nh => (readItems f items).map fun l => .reach fl f nh l
+    | _, _, _ => none
+  | ["u", fl, fam, items] =>
+    match readFlags fl, famOfName fam with
+    | some fl, some f => (readItems f items).map fun l => .unreach fl f l
+    | _, _ => none
+  | _ => none
+
+def readAttrs (s : String) : Option (List AttrC) :=
+  if s == "-" then some [] else (s.splitOn "|").mapM readAttr
+
+def enc (c wd attrs ann : String) : String :=
+  match parseCfg c, readItems .v4u wd, readAttrs attrs, readItems .v4u ann with
+  | some cfg, some w, some at', some a =>
+    match encUpdateT cfg ⟨w, at', a⟩ with
+    | .ok bs => "ok " ++ hexOrDash bs
+    | .err => "err"
+    | .panic => "panic"
+  | _, _, _, _ => "bad-op"
+
+/-- the two extra tokens of a C01 `upd` request (hash, expected observation)
+are for the harness' oracle only -/
 def handle (ws : List String) : String :=
   match ws with
   | ["upd", c, hx] => upd c hx
   | ["upd", c, hx, _, _] => upd c hx
+  | ["enc", c, wd, attrs, ann] => enc c wd attrs ann
   | _ => "bad-op"
 
 end Rc.Drv.C01
